@@ -4,7 +4,7 @@ granted permission.  In the code several WriteTo calls to one peer are goroutine
 the map's mutex; a writer whose CreatePermission fails removes the entry, a writer whose request is granted (re-)inserts its own.
 This file proves over ALL interleavings of their atomic blocks that a granted permission is never left without a map entry — the
 periodic refresh names the peers of the map's entries — provided a writer that gives up removes the entry only if it still is ITS
-object (`deleteIf`); the proviso is tied to today's source by the regenerated fact `Gen.Facts.clientPerm_delete_conditional`.
+object and that object has not been granted meanwhile (`deleteIf`, later `deleteIfIdle`); the proviso is tied to today's source by the regenerated fact `Gen.Facts.clientPerm_delete_conditional`.
 -/
 import TurnModel.Gen.Facts
 namespace Turn.C13Perm
@@ -101,7 +101,7 @@ theorem never_forgotten_model : (interleavings losers winner).all (fun il => !fo
 /-- the historical map (`delete(addr)`, whoever owns the entry) does lose a granted permission: finding F19d -/
 theorem unconditional_delete_forgets : (interleavings losers winner).any (fun il => forgotten (run false il)) = true := by decide
 
-/-- regenerated obligation: in today's source a writer that gives up removes the entry through `deleteIf(addr, perm)` only -/
+/-- regenerated obligation: in today's source a writer that gives up removes the entry through `deleteIf(addr, perm)` / `deleteIfIdle(addr, perm)` only -/
 theorem delete_is_conditional : Gen.Facts.clientPerm_delete_conditional = true := by decide
 
 theorem never_forgotten :
